@@ -7,4 +7,6 @@ import c08_pipe
 
 def run(ctx, replay):
     ctx.cov["rule"] = "C08 pipeline tier only (development stub)"
+    if replay and c08_pipe.replay_pipe(ctx, replay):
+        return
     c08_pipe.run_pipe(ctx)
